@@ -49,6 +49,7 @@ class SimThread:
         self.exc: Optional[BaseException] = None
         self.no_preempt = 0  # >0: LINE events do not yield (harness critical section)
         self.wait_for: list["SimThread"] = []  # not runnable until all of these are done
+        self.blocked: Optional[Callable[[], bool]] = None  # parked until this predicate holds (block_until)
         self.real = threading.Thread(target=self._main, name=f"sim-{idx}-{name}", daemon=True)
         self.ctx: dict = {}  # property-specific per-thread context
 
@@ -159,14 +160,24 @@ class InsertAtChooser(Chooser):
     other threads run afterwards.  Sweeping k over every yield point of the victim's operation covers the whole
     "one remote operation lands between two local steps" space for that pair of operations."""
 
-    def __init__(self, victim: int, k: int, intruder: int):
+    def __init__(self, victim: int, k: int, intruder: int, intruder_prefix: int = 0):
         self.victim, self.k, self.intruder = victim, k, intruder
+        self.prefix_left = intruder_prefix  # operations the intruder completes before the victim starts
+        self.prefix_ops_seen = 0
         self.count = 0
         self.holding = False
         self.inserted = False
         self.fresh = False
 
     def choose(self, step, cur, runnable, kind=""):
+        if self.prefix_left > 0 and self.intruder in runnable:
+            # the intruder first completes its prefix: it announces operation 0, 1, ... at "op" yield points
+            if cur == self.intruder and kind == "op":
+                self.prefix_ops_seen += 1
+                if self.prefix_ops_seen > self.prefix_left:
+                    self.prefix_left = 0
+                    return self.victim if self.victim in runnable else runnable[0]
+            return self.intruder
         if self.holding:
             if cur == self.intruder and cur in runnable and (kind != "op" or self.fresh):
                 # (a thread that had not started yet announces its first operation before running it)
@@ -258,7 +269,7 @@ class Scheduler:
         return t
 
     def runnable(self) -> list[int]:
-        return [t.idx for t in self.threads if not t.done and all(w.done for w in t.wait_for)]
+        return [t.idx for t in self.threads if not t.done and all(w.done for w in t.wait_for) and (t.blocked is None or t.blocked())]
 
     def unfinished(self) -> list[int]:
         return [t.idx for t in self.threads if not t.done]
@@ -313,6 +324,26 @@ class Scheduler:
         me.go.clear()
         if self.fatal is not None:
             raise self.fatal
+
+    def block_until(self, pred: Callable[[], bool]) -> None:
+        """Called by a simulated thread: it is not runnable until ``pred()`` holds (a simulated wait on a
+        condition owned by the harness, e.g. "stay inside this scope until the others are done")."""
+        me = current()
+        if me is None:
+            return
+        me.blocked = pred
+        try:
+            while not pred():
+                if not self.runnable():
+                    self.fatal = HarnessError("every simulated thread is blocked")
+                    raise self.fatal
+                saved, me.no_preempt = me.no_preempt, 0
+                try:
+                    self.yield_point("block")
+                finally:
+                    me.no_preempt = saved
+        finally:
+            me.blocked = None
 
     def _finished(self, me: SimThread) -> None:
         if self.fatal is None and not self.runnable() and self.unfinished():
